@@ -272,6 +272,23 @@ static void huge_len(long it)
     }
 }
 
+/* 2^32+13 bytes (byte count past 2^32; 13 = one full SipHash word + 5, not a multiple of any block) through the one-shot functions huge_len does not
+ * reach (with it: every one-shot function of the property has a > 4 GiB message): same aliased periodic buffer, same oracle (the reference over
+ * the same bytes). fn 0,1 (SipHash-2-4 64/128, a few seconds each) run in both tiers, the rest in the thorough tier. */
+static void huge13_len(long fn)
+{
+    size_t len = (size_t) ((1ULL << 32) + 13); unsigned char *m = alias_buffer(len + 64), key[64], o1[64], o2[64];
+    if (!m) { printf("INFO huge length %zu skipped: cannot map the aliased buffer\n", len); return; }
+    vf_pat(key, 64, PAT_R2, 68);
+    switch ((int) fn) {
+    case 0: crypto_shorthash(o1, m, len, key); ref_siphash24(o2, m, len, key); CMP("shorthash/len=%zu/%s", o1, o2, 8, len, "huge13"); break;
+    case 1: crypto_shorthash_siphashx24(o1, m, len, key); ref_siphashx24(o2, m, len, key); CMP("shorthash_siphashx24/len=%zu/%s", o1, o2, 16, len, "huge13"); break;
+    case 2: crypto_generichash(o1, 32, m, len, NULL, 0); ref_blake2b(o2, 32, m, len, NULL, 0, NULL, NULL); CMP("generichash32/len=%zu/%s", o1, o2, 32, len, "huge13"); break;
+    case 3: crypto_auth(o1, m, len, key); ref_hmac_sha512256(o2, key, 32, m, len); CMP("crypto_auth/len=%zu/%s", o1, o2, 32, len, "huge13"); break;
+    case 4: crypto_auth_hmacsha512(o1, m, len, key); ref_hmac_sha512(o2, key, 32, m, len); CMP("hmacsha512/len=%zu/%s", o1, o2, 64, len, "huge13"); break;
+    }
+}
+
 /* ------------------------------------------------------------------ crafted Poly1305 */
 static const unsigned char PBLK[7][16] = {
     { 0 }, { 1 },
@@ -530,6 +547,7 @@ int main(void)
     vf_parallel(16, 0, (long) MAXLEN + 1, values_len, fin);
     vf_parallel(16, 0, 20, big_len, fin);
     if (thorough && !getenv("SODIUM_VERIF_CPU_DISABLE")) vf_parallel(16, 0, 16, huge_len, fin);      /* once per build (unmasked configuration only) */
+    if (!getenv("SODIUM_VERIF_CPU_DISABLE")) vf_parallel(5, 0, thorough ? 5 : 2, huge13_len, fin);     /* once per build; quick: the two SipHash functions */
     vf_parallel(16, 0, 201, hmac_keylen, fin);
     vf_parallel(16, 1, 65, blake_outlen, fin);
     vf_parallel(16, 0, 23, kdf_all, fin);
